@@ -23,6 +23,7 @@ CONSTANTS TermKinds,     \* sequence of <<coefficient kind, vector kind>>: the t
           NonVecKinds,   \* non-vector expressions (must be refused)
           ScalK2, ScalK1, ScalK0,   \* coefficient kinds of the scalar equations k2 x^2 + k1 x + k0 = 0
           RadicalEqs,    \* triples <<p, q, r>> of integers: the radical equations sqrt(p x + q) = x + r
+          PowerEqs,      \* scalar equations whose solution is a product / quotient of square roots of two symbols
           Systems,       \* tuples <<a11, a12, c1, a21, a22, c2>>: a11 x + a12 y = c1 t, a21 x + a22 y = c2 t
                          \* (second row all 0: a single equation in two unknowns)
           ScalApplyFns,  \* functions applied by `apply` to scalar (non-vector) equations given as bare expressions
@@ -72,7 +73,15 @@ NonVecProg == [
   nu  |-> << U, <<"norm", 0>> >>,
   dua  |-> << U, VA, <<"dot", 0>> >>,
   x    |-> << X >>,
-  xdab |-> << X, VA, VB, <<"dot", 0>>, <<"adds", 0>> >> ]
+  xdab |-> << X, VA, VB, <<"dot", 0>>, <<"adds", 0>> >>,
+  \* a vector divided by a scaled vector or by a sum of vectors is not a vector expression (the programs are
+  \* ill-typed on purpose: they have no value, the harness only builds them)
+  divscaled  |-> << VA, X, VB, <<"scalev", 0>>, <<"pow", -1>>, <<"muls", 0>>, U, <<"addv", 0>> >>,     \* a/(x b) + u
+  divscaledu |-> << VB, U, <<"int", 2>>, VA, <<"scalev", 0>>, <<"pow", -1>>, <<"muls", 0>>, <<"neg", 0>>,
+                    <<"addv", 0>> >>,                                                                    \* b - u/(2 a)
+  divsum     |-> << VB, U, VA, <<"addv", 0>>, <<"pow", -1>>, <<"muls", 0>>, U, <<"addv", 0>> >> ]        \* b/(u + a) + u
+ScalarExprKinds == {"nu", "dua", "x", "xdab"}
+T == <<"scal", 3>>
 
 -----------------------------------------------------------------------------
 (* The statement, over explicit term lists ts = sequence of <<cprog, vprog, side>>. *)
@@ -205,6 +214,16 @@ SystemVerdict(A, sys, sols) ==
   IF sols = <<>> \/ IsU(r1) \/ IsU(r2) THEN "un"
   ELSE IF IsZero(ValOf(r1)) /\ IsZero(ValOf(r2)) THEN "ok" ELSE "bad"
 
+\* equations whose solution is a product / quotient of square roots, and a proposed solution s; sqrt of a negative
+\* value is the principal root i sqrt(|.|), so that sqrt(y) sqrt(t) and sqrt(y t) differ when both are negative
+\*   "prodsqrt":  x / sqrt(y) = sqrt(t)        "quotsqrt":  x sqrt(y) = sqrt(t)
+PowerResidual(A, kind, s) ==
+  LET ry == SqrtS(Eval(A, << Y >>))  rt == SqrtS(Eval(A, << T >>)) IN
+  IF kind = "prodsqrt" THEN Add(Mul(s, Inv(ry)), Neg(rt)) ELSE Add(Mul(s, ry), Neg(rt))
+PowerVerdict(A, kind, s) ==
+  LET res == PowerResidual(A, kind, s) IN
+  IF IsU(res) THEN "un" ELSE IF IsZero(ValOf(res)) THEN "ok" ELSE "bad"
+
 \* scalar equation k2 x^2 + k1 x + k0 = 0 and a proposed solution s
 Residual(A, ks, s) ==
   Add(Add(Mul(Eval(A, ks[1]), Mul(s, s)), Mul(Eval(A, ks[2]), s)), Eval(A, ks[3]))
@@ -265,9 +284,14 @@ RadicalEq(pqr, form) ==
   /\ mode' = "radical" /\ terms' = pqr
   /\ fin' = [done |-> TRUE, op |-> "solve_radical", form |-> form, reduce |-> FALSE, fn |-> "none"]
 
+PowerEq(kind, form) ==
+  /\ mode = "start" /\ form \in {"expr", "eqO"}
+  /\ mode' = "power" /\ terms' = <<kind>>
+  /\ fin' = [done |-> TRUE, op |-> "solve_power", form |-> form, reduce |-> FALSE, fn |-> "none"]
+
 \* `apply` on a bare scalar expression (top node dot, norm, sum, symbol) or on Eq(expression, 0)
 ApplyScalar(kind, form, fn) ==
-  /\ mode = "start" /\ form \in {"expr", "eqL"}
+  /\ mode = "start" /\ form \in {"expr", "eqL"} /\ kind \in ScalarExprKinds
   /\ mode' = "nonvec" /\ terms' = <<kind>>
   /\ fin' = [done |-> TRUE, op |-> "apply", form |-> form, reduce |-> FALSE, fn |-> fn]
 
@@ -279,6 +303,7 @@ SystemEq(sys, req) ==
   /\ fin' = [done |-> TRUE, op |-> "solve_system", form |-> "eqL", reduce |-> FALSE, fn |-> "none"]
 
 Next == \/ \E pqr \in RadicalEqs, f \in Forms : RadicalEq(pqr, f)
+        \/ \E k \in PowerEqs, f \in Forms : PowerEq(k, f)
         \/ \E sys \in Systems, req \in {<<1>>, <<2>>, <<1, 2>>, <<2, 1>>} : SystemEq(sys, req)
         \/ \E k \in NonVecKinds, f \in Forms, g \in ScalApplyFns : ApplyScalar(k, f, g)
         \/ \E i \in DOMAIN TermKinds : AddTerm(i)
@@ -376,7 +401,17 @@ RadicalsMeaningful == mode = "radical" => \A i \in 1..NA :
   /\ \E c \in -12..12 : /\ RadicalVerdict(Assigns[i], RadProgs, IntS(c)) = "bad"
                          /\ terms[1] * c + terms[2] = (c + terms[3]) * (c + terms[3])
 
-TypeOK == /\ mode \in {"start", "vec", "nonvec", "scalar", "radical", "system"}
+\* the merged root sqrt(y t) (resp. sqrt(t / y)) is a solution for positive values and is not for some assignment
+\* of the configuration: the equations tell the two apart
+PowersMeaningful == mode = "power" =>
+  LET merged(A) == IF terms[1] = "prodsqrt" THEN SqrtS(Mul(Eval(A, << Y >>), Eval(A, << T >>)))
+                   ELSE SqrtS(Mul(Eval(A, << T >>), Inv(Eval(A, << Y >>))))
+      split(A)  == IF terms[1] = "prodsqrt" THEN Mul(SqrtS(Eval(A, << Y >>)), SqrtS(Eval(A, << T >>)))
+                   ELSE Mul(SqrtS(Eval(A, << T >>)), Inv(SqrtS(Eval(A, << Y >>)))) IN
+  /\ \A i \in 1..NA : PowerVerdict(Assigns[i], terms[1], split(Assigns[i])) = "ok"
+  /\ \E i \in 1..NA : PowerVerdict(Assigns[i], terms[1], merged(Assigns[i])) = "bad"
+
+TypeOK == /\ mode \in {"start", "vec", "nonvec", "scalar", "radical", "system", "power"}
           /\ fin.done \in BOOLEAN
           /\ (mode = "vec" => \A j \in DOMAIN terms : terms[j] \in DOMAIN TermKinds)
 
@@ -395,7 +430,7 @@ Emit ==
     PrintT(ToJson(
       [mode |-> mode, op |-> fin.op, form |-> fin.form, reduce |-> fin.reduce, fn |-> fin.fn,
        ts |-> IF mode = "vec" THEN Ts ELSE IF mode = "nonvec" THEN <<NonVecProg[terms[1]]>>
-              ELSE IF mode = "radical" THEN RadProgs ELSE IF mode = "system" THEN terms ELSE ScalProgs,
+              ELSE IF mode = "radical" THEN RadProgs ELSE IF mode \in {"system", "power"} THEN terms ELSE ScalProgs,
        exp |-> IF mode = "vec" THEN [i \in 1..NA |-> ExpectRec(Assigns[i])]
                ELSE IF mode = "nonvec" /\ fin.op = "apply" THEN [i \in 1..NA |-> ScalApplyRec(Assigns[i])] ELSE <<>>]))
 =============================================================================
